@@ -123,8 +123,18 @@ pub fn c15(out: &mut dyn Write, tier: &str, _rng: &mut Rng, st: &mut Stats) {
     let mut ns: Vec<usize> = (1..=12).collect();
     ns.extend_from_slice(&[16, 20, 31, 32, 40, 255, 256, 300]);
     if tier == "thorough" { ns.extend(13..=40); ns.extend_from_slice(&[64, 100, 128, 254, 257, 400, 1000]); }
-    for n in ns {
-        let (class, stdout, _) = run_tool("n_queens_gen", &["-n".into(), n.to_string()], &[], OutArg::Positional, 300, st);
+    // … then smaller boards written into the file that holds a larger board whose size begins with the same digits
+    // (10 then 1, 12 then 1, 20 then 2, 40 then 4), and the same size twice
+    let mut plan: Vec<(usize, bool)> = ns.iter().map(|n| (*n, false)).collect();
+    for n in [10usize, 1, 12, 1, 20, 2, 40, 4, 4, 3] { plan.push((n, true)); }
+    let revisit = format!("{}/queens_revisit.txt", scratch());
+    let _ = std::fs::remove_file(&revisit);
+    for (n, same_file) in plan {
+        let (class, stdout, _) = if same_file {
+            let (class, so, se) = run_capture(&bin("n_queens_gen"), &["-n".into(), n.to_string(), revisit.clone()], &[], 300);
+            st.hit("n_queens_gen.revisit-file");
+            if class == "ok" { (class, std::fs::read(&revisit).unwrap_or_default(), se) } else { (class, so, se) }
+        } else { run_tool("n_queens_gen", &["-n".into(), n.to_string()], &[], OutArg::Positional, 300, st) };
         st.hit(&format!("exit.{}", class));
         if class != "ok" { writeln!(out, "C15|queens|{}|{}|-|-", n, class).unwrap(); continue; }
         // the bytes themselves, for the text model of the generator (recorded tie, see Thm/C15T.lean)
@@ -318,6 +328,11 @@ pub fn c17(out: &mut dyn Write, tier: &str, rng: &mut Rng, st: &mut Stats) {
         cases.push((2, s));
     }
     for p in ["1234\n34", "12343", "1", "12", "123412", "1234341221", ".2.4.1", "1...\u{b}..2.\u{b}.3..\u{b}...4", "1\u{a0}.\u{a0}.\u{a0}2", "\u{3000}12\u{2028}34", "12..\n....\n\n....\n..12\n", "\n1234\n\n\n3412"] { cases.push((2, p.to_string())); }
+    // texts that begin with a character an editor may put there invisibly (byte-order mark, zero-width space, word joiner):
+    // not a digit and not whitespace, so a blank in cell 0; several of them, so that some reach the tool as INPUT file
+    for lead in ['\u{feff}', '\u{200b}', '\u{2060}', '\u{feff}', '\u{feff}', '\u{200b}'] {
+        for p in ["1234341221434312", "12..34..........", ".2.4.1"] { cases.push((2, format!("{}{}", lead, p))); }
+    }
     // root 3: a few puzzles (the formula has 729 variables; only structure and solution soundness)
     let solved9 = "534678912672195348198342567859761423426853791713924856961537284287419635345286179";
     let n3 = if tier == "thorough" { 50 } else { 4 };
@@ -412,7 +427,11 @@ pub fn c18(out: &mut dyn Write, tier: &str, rng: &mut Rng, st: &mut Stats) {
         let many_colours = i % 20 == 11;
         let k = if many_colours { 2 + rng.below(2) as usize } else { 2 + rng.below(3) as usize };
         let m = if many_colours { 1 + rng.below(3) as usize } else { rng.below(7) as usize };
-        let names = if i % 4 >= 2 { &names_prefix } else { &names_plain };
+        // … and names whose concatenations coincide (1 + 12 = 11 + 2 = 112, a + bc = ab + c)
+        let names_concat = ["1", "12", "11", "2", "112"];
+        let names_concat2 = ["a", "bc", "ab", "c", "abc"];
+        let names = if i % 10 == 5 { &names_concat } else if i % 10 == 9 { &names_concat2 } else if i % 4 >= 2 { &names_prefix } else { &names_plain };
+        let k = if i % 10 == 5 || i % 10 == 9 { 4 + rng.below(2) as usize } else { k };
         let edges: Vec<(String, String)> = (0..m).map(|_| (names[rng.below(k as u64) as usize].to_string(), names[rng.below(k as u64) as usize].to_string())).collect();
         let csv: String = edges.iter().map(|(a, b)| format!("{},{}\n", a, b)).collect();
         std::fs::write(&path, csv).unwrap();
